@@ -489,6 +489,7 @@ func Child(c *run.Ctx, name string) {
 		}
 		o.TTLLabel = gi%4 == 1 || o.Big && gi%2 == 0
 		o.Unordered = gi%3 == 1
+		o.ZoneTwins = gi%7 == 3 && !o.Big
 		if r.Intn(8) == 0 {
 			o.Streams = 20 + r.Intn(30)
 		}
